@@ -29,10 +29,10 @@
 #define SHRT_MAX 32767
 #define USHRT_MAX 65535
 
-#define LONG_BIT 32
+#define LONG_BIT 64
 #define LONG_MIN (-LONG_MAX - 1)
-#define LONG_MAX 2147483647L
-#define ULONG_MAX 4294967295UL
+#define LONG_MAX 9223372036854775807L
+#define ULONG_MAX 18446744073709551615UL
 
 #define LLONG_MIN (-LLONG_MAX - 1)
 #define LLONG_MAX 9223372036854775807LL
